@@ -193,13 +193,12 @@ static void ser_children(const Basic &b, vec_basic &out)
     // atoms and classes without stored children (or unsupported ones): nothing
 }
 
-// (double_bits e) -> sorted list of the bit patterns (16 hex digits) of every double stored in e
-OP(double_bits)
+static std::vector<std::string> collect_bits(const RCP<const Basic> &root)
 {
     std::vector<std::string> acc;
-    std::vector<RCP<const Basic>> stack{argB(a, 0)};
-    std::set<const Basic *> seen;
-    while (!stack.empty()) {
+    std::vector<RCP<const Basic>> stack{root};
+    size_t budget = 200000;
+    while (!stack.empty() && budget-- > 0) {
         RCP<const Basic> n = stack.back();
         stack.pop_back();
         if (is_a<RealDouble>(*n)) {
@@ -218,8 +217,14 @@ OP(double_bits)
             stack.push_back(c);
     }
     std::sort(acc.begin(), acc.end());
+    return acc;
+}
+
+// (double_bits e) -> sorted list of the bit patterns (16 hex digits; "re+imi" for a ComplexDouble) of every double stored in e
+OP(double_bits)
+{
     Val r = Val::vec();
-    for (auto &s : acc)
+    for (auto &s : collect_bits(argB(a, 0)))
         r.v.push_back(Val::str(s));
     return r;
 }
@@ -302,6 +307,16 @@ OP(dm_roundtrip)
     }
     out.put("elems", elems);
     out.put("eq", eqs);
+    Val bits = Val::vec();
+    if (alleq)
+        for (unsigned i = 0; i < m2.nrows(); i++)
+            for (unsigned j = 0; j < m2.ncols(); j++) {
+                Val one = Val::vec();
+                for (auto &s : collect_bits(m2.get(i, j)))
+                    one.v.push_back(Val::str(s));
+                bits.v.push_back(one);
+            }
+    out.put("bits", bits);
     out.put("str_equal", Val::boolean(alleq && m.__str__() == m2.__str__()));
     // sharing across elements: the same element object referenced from several cells
     size_t distinct_in = 0, distinct_out = 0;
